@@ -22,8 +22,8 @@ GNext == /\ Len(hist) < MaxOps /\ UNCHANGED keep
             \/ \E a \in Slots, it \in Items, i \in 1..MaxBins : Add(a, it, i) /\ hist' = Append(hist, Rec("add", a, 0, i, 0, 0, it))
             \/ \E a, b \in Slots : Copy(a, b) /\ hist' = Append(hist, Rec("copy", a, b, 0, 0, 0, 0))
             \/ \E a \in Slots : NB(a) >= 2 /\ StableSort(a) /\ hist' = Append(hist, Rec("sort", a, 0, 0, 0, 0, 0))
-            \/ \E a \in Slots, n \in 0..1 : AddEmpty(a, n) /\ hist' = Append(hist, Rec("addempty", a, 0, 0, 0, n, 0))
-            \/ \E a \in Slots, n \in 0..1 : RemoveLast(a, n) /\ hist' = Append(hist, Rec("remove", a, 0, 0, 0, n, 0))
+            \/ \E a \in Slots, n \in 0..2 : AddEmpty(a, n) /\ hist' = Append(hist, Rec("addempty", a, 0, 0, 0, n, 0))
+            \/ \E a \in Slots, n \in 0..2 : RemoveLast(a, n) /\ hist' = Append(hist, Rec("remove", a, 0, 0, 0, n, 0))
             \/ \E a, b \in Slots : Concat(a, b) /\ hist' = Append(hist, Rec("concat", a, b, 0, 0, 0, 0))
             \/ \E a, b \in Slots, i, j \in 1..MaxBins : Combine(a, i, b, j) /\ hist' = Append(hist, Rec("combine", a, b, i, j, 0, 0))
 EmitAtEnd == (Len(hist) = MaxOps) => PrintT("@@E " \o ToJson([ops |-> hist]))
